@@ -55,25 +55,21 @@ class Driver:
         self.h = []; self.c = []
         self.futs = []          # handler futures in start order
 
-        class Slow(resource.Resource):
-            async def render(self, request):      # every request code, not only the render_* ones
-                k = len(drv.futs); fut = drv.loop.create_future(); drv.futs.append(fut)
-                drv.h.append(["start", k])
-                try:
-                    code, nr, pl = await fut
-                except asyncio.CancelledError:
-                    drv.h.append(["cancel", k]); raise
-                resp = Message(code=aiocoap.numbers.codes.Code(code), payload=bytes(pl))
-                if nr is not None: resp.opt.no_response = nr
-                if resp.opt.no_response is None: resp.opt.no_response = request.opt.no_response
-                return resp
-        class SlowGet(resource.Resource):
-            pass
-        class Fast(resource.Resource):
-            async def render_get(self, request): return Message(payload=b"f")
-            async def render_post(self, request): return Message(payload=b"p")
-        class Boom(resource.Resource):
-            async def render_get(self, request): raise RuntimeError("boom")
+        METHODS = ["get", "post", "put", "delete", "fetch", "patch", "ipatch"]
+        async def slow(self, request):
+            k = len(drv.futs); fut = drv.loop.create_future(); drv.futs.append(fut)
+            drv.h.append(["start", k])
+            try:
+                code, nr, pl = await fut
+            except asyncio.CancelledError:
+                drv.h.append(["cancel", k]); raise
+            resp = Message(code=aiocoap.numbers.codes.Code(code), payload=bytes(pl))
+            if nr is not None: resp.opt.no_response = nr
+            return resp
+        async def fast(self, request): return Message(payload=b"f")
+        async def boom(self, request): raise RuntimeError("boom")
+        def mk(name, f): return type(name, (resource.Resource,), {"render_" + m: f for m in METHODS})
+        Slow, Fast, Boom = mk("Slow", slow), mk("Fast", fast), mk("Boom", boom)
         site = resource.Site()
         site.add_resource(["slow"], Slow()); site.add_resource(["fast"], Fast()); site.add_resource(["boom"], Boom())
         self.ctx, self.tman, self.mman, self.mi = simnet.make_stack(self.loop, site)
